@@ -123,12 +123,13 @@ def seed_deep_tree():
                    features=["page tree 12 levels deep", "attributes inherited over 12 levels"])
 
 
-def seed_big_objstm():
-    """150 pages kept in ONE object stream (plus catalog, page tree nodes and font): what a linearised report looks
+def seed_big_objstm(npages=80):
+    """npages pages kept in ONE object stream (plus catalog, page tree node and font): what a generated report looks
     like.  Every lookup of a member goes through the parsed-object-stream cache; if that cache fails on a damaged
-    stream (cut payload, wrong /N) the stream is re-parsed per lookup and the work grows with the square of the number
-    of members.  Pages 2..150 are copies of page 1 (bulk owners: written, but only page 1 and 2 have sites)."""
-    npages = 150
+    stream (payload cut by a few bytes, wrong /N) the stream is re-parsed per lookup and the work grows with the
+    square of the number of members.  Pages 3..n are copies of page 1 (bulk owners: written, but only pages 1 and 2 and
+    the first two /Kids elements are sites).  `double` builds the same document with 2n pages: harness/props/c13.py
+    runs every fault of this seed at both sizes and requires the work to scale linearly."""
     first = 20
     o = {1: {"Type": N("Catalog"), "Pages": Ref(2)},
          2: {"Type": N("Pages"), "Kids": [Ref(first + i) for i in range(npages)], "Count": npages, "MediaBox": [0, 0, 200, 200],
@@ -139,9 +140,16 @@ def seed_big_objstm():
         o[first + i] = {"Type": N("Page"), "Parent": Ref(2)}
     o[first]["Contents"] = Ref(5)
     packed = [1, 2, 4] + [first + i for i in range(npages)]
+
+    def skip(site):
+        parts = site.split("/")
+        return parts[:2] == ["obj:2", "Kids"] and len(parts) > 2 and int(parts[2]) >= 2
+
     return SeedDoc("big_objstm", [Rev(dict(sorted(o.items())), form="stream", packed=packed, xref_w=(1, 2, 2))],
-                   expect=["Bulk"], features=["object stream with 153 members", "150 pages"],
-                   bulk_owners=["obj:%d" % (first + i) for i in range(2, npages)], fstride=4)
+                   expect=["Bulk"], features=["object stream with %d members" % (npages + 3), "%d pages" % npages,
+                                              "scaling check against the same document with twice the members"],
+                   bulk_owners=["obj:%d" % (first + i) for i in range(2, npages)], fstride=4, nocache=False,
+                   skip_sites=skip, double=(lambda: seed_big_objstm(2 * npages)) if npages == 80 else None)
 
 
 def seed_ascii_filters():
